@@ -257,6 +257,12 @@ def has_kind(l, kind):
     if l["k"] == "misguided": return has_kind(l["inner"], kind)
     return False
 
+def _fixed_pmfs(l):
+    if l["k"] == "fixed": yield l["pmf"]
+    elif l["k"] == "corral":
+        for b in l["bases"]: yield from _fixed_pmfs(b)
+    elif l["k"] == "misguided": yield from _fixed_pmfs(l["inner"])
+
 def is_deterministic(l):
     return l["k"] in BASES or (l["k"] == "misguided" and is_deterministic(l["inner"]))
 
@@ -336,21 +342,128 @@ def _gen_history(rng, learner, akind, dyn, n0, length=None):
     return {"learner": learner, "universe": universe, "rounds": rounds,
             "meta": {"akind": akind, "dyn": dyn, "rpat": rpat, "logm": logm}}
 
+# ------------------------------------------------------------------------------------------ adversarial seeds
+LCG_A, LCG_C, LCG_M = 116646453, 9, 2**30          # coba.random.CobaRandom: s <- (A*s + C) mod M, uniform = s/M
+LCG_AINV  = pow(LCG_A, -1, LCG_M)
+ADV_STATE = {"max": LCG_M - 1, "zero": 0}          # the generator states whose uniforms are 1-2^-30 and exactly 0.0
+
+def lcg_seed_for(state, k):
+    """the seed in [0,2^30) whose k-th draw (1-based) leaves the generator in `state`"""
+    for _ in range(k): state = (LCG_AINV * (state - LCG_C)) % LCG_M
+    return state
+
+def corral_seed_for(g):
+    """an int seed S for CorralLearner whose own generator starts in a state congruent to g (mod 2^30): Corral hands
+    S*1.234 (a float) to CobaRandom, which uses int(x) when x is integral; every float in [2^52, 2^53) is an integer"""
+    base = 1 << 52
+    for j in range(4000):
+        N = base + ((g - base) % LCG_M) + j * LCG_M
+        S = round(N / 1.234)
+        for d in (0, -1, 1, -2, 2):
+            x = (S + d) * 1.234
+            if x == N and x.is_integer() and int(x) % LCG_M == g: return S + d
+    raise RuntimeError("no Corral seed found")
+
+def gen_adv_pmf(rng, n):
+    """pmfs for FixedLearner with zero entries in front / at the end; some sum to slightly less / more than 1
+    (still inside FixedLearner's own precondition round(sum,3)==1, every entry in [0,1])"""
+    def one_hot():
+        p = [0.0]*n; p[rng.randrange(n)] = 1.0; return p
+    def two_point():
+        p = [0.0]*n
+        i, j = rng.sample(range(n), 2); p[i] = p[j] = .5; return p
+    r = rng.random()
+    if r < .25: return one_hot()
+    if r < .40: return two_point()
+    if r < .50: return list(rng.choice(FIXED_PMFS[n]))
+    d = rng.choice([4e-4, 1e-4, 3e-5, 1e-6, 1e-8])
+    if rng.random() < .75:                                             # sums to less than 1
+        p = one_hot() if rng.random() < .6 else two_point()
+        i = rng.choice([i for i, v in enumerate(p) if v > 0]); p[i] -= d
+    else:                                                              # sums to more than 1
+        p = two_point()
+        i = rng.choice([i for i, v in enumerate(p) if v > 0]); p[i] += d
+    assert round(sum(p), 3) == 1 and all(0 <= v <= 1 for v in p)
+    return p
+
+def gen_adv_base(rng, n):
+    k = rng.choice(["fixed", "fixed", "fixed", "eps", "eps", "ucb", "ucb", "random"])
+    seed = rng.randint(1, 1000)
+    if k == "fixed": return {"k": "fixed", "pmf": gen_adv_pmf(rng, n), "seed": seed}
+    if k == "eps":   return {"k": "eps", "epsilon": rng.choice([0, 0, 0, .05, .5, 1]), "seed": seed}
+    return {"k": k, "seed": seed}
+
+def gen_adv_case(rng, j):
+    """a short history in which the k-th draw of ONE learner's own generator is an extreme uniform; j enumerates (k, uniform)"""
+    uniform = "zero" if (j // ADV_DRAWS) % 3 == 2 else "max"
+    k = 1 + j % ADV_DRAWS
+    n = rng.randint(2, 6)
+    akind = rng.choice(AKINDS)
+    if rng.random() < .68:
+        learner = {"k": "corral", "eta": rng.choice(ETAS), "T": rng.choice(TS), "mode": rng.choice(MODES), "seed": rng.randint(1, 1000),
+                   "bases": [gen_adv_base(rng, n) for _ in range(rng.choice([1, 2, 2, 2, 3, 3]))]}
+        if rng.random() < .12: learner = {"k": "misguided", "sh": rng.choice(MIS_UNIT), "inner": learner}
+    else:
+        learner = gen_adv_base(rng, n)
+        if rng.random() < .15: learner = {"k": "misguided", "sh": rng.choice(MIS_ANY), "inner": learner}
+    core, target = _innermost(learner), "top"
+    tl = core
+    if core["k"] == "corral" and rng.random() < .25:
+        i = rng.randrange(len(core["bases"]))
+        target, tl = f"base:{i}", core["bases"][i]
+    g = lcg_seed_for(ADV_STATE[uniform], k)
+    tl["seed"] = corral_seed_for(g) if tl["k"] == "corral" else g
+    if has_kind(learner, "fixed"): dyn = rng.choice(["fixed", "fixed", "permute", "swap"])
+    else:                          dyn = rng.choice(["fixed", "fixed", "permute", "swap", "churn", "grow", "shrink"])
+    spec = _gen_history(rng, learner, akind, dyn, n, length=k + rng.choice([0, 1, 1, 2, 3]))
+    if target == "top" and rng.random() < .7: spec["rounds"][k-1]["log"] = None     # learn on-policy from the extreme draw
+    spec["adv"] = {"target": target, "target_kind": tl["k"], "draw": k, "uniform": uniform}
+    spec["meta"]["adv"] = [target.split(":")[0], tl["k"], uniform, k]
+    return spec
+
+def _own_rng(obj):
+    """the CobaRandom a learner object draws from (searched in its attributes, two levels deep; None if not found)"""
+    from coba.random import CobaRandom
+    def attrs(o):
+        try: return list(vars(o).values())
+        except TypeError: return []
+    level = attrs(obj)
+    for _ in range(2):
+        for v in level:
+            if isinstance(v, CobaRandom): return v
+        level = [w for v in level if not isinstance(v, (list, tuple, dict, set, str, int, float, type(None))) for w in attrs(v)]
+    for v in level:
+        if isinstance(v, CobaRandom): return v
+    return None
+
+def _rng_state(rng):
+    """LCG state of a real CobaRandom, read from the frame of its uniform generator (None if it cannot be read)"""
+    try:
+        fr = rng._randu.gi_frame
+        if fr is None or fr.f_lasti < 0: return None                    # exhausted / no draw made yet
+        s = fr.f_locals.get("s")
+        return None if s is None else s % LCG_M
+    except Exception:
+        return None
+
 # ------------------------------------------------------------------------------------------ build
-def build(l):
+def build(l, reg=None, path="top"):
+    """reg (optional dict) receives the concrete learner objects: 'top' = the innermost non-Misguided learner, 'base:i' = Corral's bases"""
     from coba.learners.bandit import RandomLearner, FixedLearner, BanditEpsilonLearner, BanditUCBLearner
     from coba.learners.corral import CorralLearner
     from coba.learners.misguided import MisguidedLearner
     k = l["k"]
-    if k == "random": return RandomLearner(seed=l["seed"])
-    if k == "fixed":  return FixedLearner(list(l["pmf"]), seed=l["seed"])
-    if k == "eps":    return BanditEpsilonLearner(l["epsilon"], seed=l["seed"])
-    if k == "ucb":    return BanditUCBLearner(seed=l["seed"])
-    if k == "corral":
+    if k == "misguided": return MisguidedLearner(build(l["inner"], reg, path), l["sh"][0], l["sh"][1])
+    if   k == "random": o = RandomLearner(seed=l["seed"])
+    elif k == "fixed":  o = FixedLearner(list(l["pmf"]), seed=l["seed"])
+    elif k == "eps":    o = BanditEpsilonLearner(l["epsilon"], seed=l["seed"])
+    elif k == "ucb":    o = BanditUCBLearner(seed=l["seed"])
+    elif k == "corral":
         T = math.inf if l["T"] == "inf" else l["T"]
-        return CorralLearner([build(b) for b in l["bases"]], eta=l["eta"], T=T, mode=l["mode"], seed=l["seed"])
-    if k == "misguided": return MisguidedLearner(build(l["inner"]), l["sh"][0], l["sh"][1])
-    raise ValueError(k)
+        o = CorralLearner([build(b, reg, f"base:{i}") for i, b in enumerate(l["bases"])], eta=l["eta"], T=T, mode=l["mode"], seed=l["seed"])
+    else: raise ValueError(k)
+    if reg is not None: reg[path] = o
+    return o
 
 def _where(exc):
     """innermost coba frame of an exception: 'file.py:function'"""
@@ -392,15 +505,41 @@ def check_case(spec, ctx=None, upto=None):
     viol = []
     step = {"t": -1, "op": "init"}
 
+    adv   = spec.get("adv")
+    advst = {"rng": None, "placed": False, "want": ADV_STATE[adv["uniform"]] if adv else None}
+    U_MAX = (LCG_M - 1) / LCG_M
+
+    def adv_at_extreme():
+        return adv is not None and advst["rng"] is not None and _rng_state(advst["rng"]) == advst["want"]
+
+    def adv_probe():
+        """was the extreme uniform just drawn by the targeted generator?  (counted once per history)"""
+        if advst["placed"] or not adv_at_extreme(): return False
+        advst["placed"] = True
+        cat = "corral-base" if adv["target"] != "top" else "corral" if adv["target_kind"] == "corral" else \
+              "random-learner" if adv["target_kind"] == "random" else "pmf-learner"
+        note(f"adv.placed.{cat}.uniform={adv['uniform']}")
+        return True
+
     def fail(sig, what):
+        if adv_at_extreme():
+            sig += "/uniform=" + ("largest" if adv["uniform"] == "max" else "0.0")
+            what = f"{what} [the {adv['draw']}-th draw of the generator of learner '{adv['target']}' is {U_MAX if adv['uniform'] == 'max' else 0.0!r}]"
         viol.append((sig, f"round {step['t']} {step['op']}: {what}"))
         spec["_failed_at"] = step["t"]
         return viol
 
+    reg = {}
     try:
-        learner = build(lspec)
+        learner = build(lspec, reg)
     except BaseException as e:
         return fail(f"{cls}.__init__/raise:{type(e).__name__}@{_where(e)}", f"{type(e).__name__}: {e}")
+    if adv:
+        note("adv.histories")
+        advst["rng"] = _own_rng(reg.get(adv["target"]))
+        if advst["rng"] is not None: note("adv.generator_found")
+    sloppy  = any(abs(sum(pmf) - 1) > 1e-12 for pmf in _fixed_pmfs(lspec))       # only in adversarial-seed histories
+    sum_tol = 1e-3 if sloppy else 1e-9
 
     prevA = None
     tiny_iw = False
@@ -414,11 +553,31 @@ def check_case(spec, ctx=None, upto=None):
         try:
             # -------- predict
             step["op"] = "predict"
+            adv_now = adv is not None and adv["target"] == "top" and t == adv["draw"] - 1
+            if adv_now and core["k"] == "corral":
+                try:    w_sum = sum(reg["top"]._p_bars)
+                except Exception: w_sum = None
             pred = learner.predict(x, A)
             note("oracle.predict")
             if last: note("oracle.final_predict")
             a, p = pred[0], pred[1]
             kw = pred[2] if len(pred) > 2 else {}
+            if adv and adv_probe() and adv_now:
+                # reach accounting: did the extreme draw meet the pmf shapes in which it matters?
+                u, end = adv["uniform"], (-1 if adv["uniform"] == "max" else 0)
+                edge = "last-action-prob=0" if u == "max" else "first-action-prob=0"
+                if core["k"] == "corral":
+                    gap = u == "max" and w_sum is not None and w_sum <= U_MAX
+                    if gap: note("adv.reach.corral.uniform=max.draw>=sum(weights)")
+                    try:    zero_edge = not _member(A[end], kw["info"][0])
+                    except Exception: zero_edge = False
+                    if zero_edge: note(f"adv.reach.corral.uniform={u}.{edge}")
+                    if gap and zero_edge: note("adv.reach.corral.uniform=max.draw>=sum(weights)+last-action-prob=0")
+                elif core["k"] != "random":
+                    zero_edge = learner.score(x, A, A[end]) == 0
+                    if zero_edge: note(f"adv.reach.pmf-learner.uniform={u}.{edge}")
+                    if zero_edge and u == "max" and core["k"] == "fixed" and sum(core["pmf"]) <= U_MAX:
+                        note("adv.reach.fixed.uniform=max.draw>=sum(pmf)+last-action-prob=0")
             if not last:
                 # -------- learn (on-policy: what was predicted; logged: another member of the offered set + its logged probability)
                 step["op"] = "learn"
@@ -441,13 +600,18 @@ def check_case(spec, ctx=None, upto=None):
                     if core["eta"] >= 10: note("oracle.learn.corral.eta>=10")
             # -------- score for every offered action
             step["op"] = "score"
-            scores = [learner.score(x, A, b) for b in A]
+            if adv:
+                scores = []
+                for b in A:
+                    scores.append(learner.score(x, A, b)); adv_probe()      # (Corral's score lets its base learners draw)
+            else:
+                scores = [learner.score(x, A, b) for b in A]
             note("oracle.scores")
             if det:
                 note("oracle.scores.sum_to_one")
                 if any(not _num(s) or s < 0 for s in scores):
                     return fail(f"{cls}.score/negative-or-nan", f"scores {scores} over {A}")
-                if abs(sum(scores) - 1) > 1e-9:
+                if abs(sum(scores) - 1) > sum_tol:
                     return fail(f"{cls}.score/sum!=1", f"scores {scores} sum to {sum(scores)!r} over {A}")
         except ContractBroken as e:
             return fail(e.tag + (flags if e.tag.startswith("CorralLearner") else ""), str(e))
@@ -468,14 +632,20 @@ def _alarm(signum, frame): raise WallClock()
 
 def case_key(spec):
     m = spec["meta"]
-    return (learner_sig(spec["learner"]), m["akind"], m["dyn"], m["rpat"], m["logm"])
+    return (learner_sig(spec["learner"]), m["akind"], m["dyn"], m["rpat"], m["logm"], tuple(m.get("adv", ())))
 
 def run_shard(ctx):
     _install()
     signal.signal(signal.SIGALRM, _alarm)
+    # the adversarial-seed histories come first (short; they must not be starved by the time budget), from a stream of
+    # their own so that the general histories are the same as without them; j enumerates (draw k, which uniform)
+    import random
+    n_adv  = min(ctx.n, ADV_CASES[ctx.tier] // ctx.nshards)
+    advrng = random.Random(f"{ctx.seed}/C16/adv/{ctx.tier}/{ctx.shard}")
     i = 0
     while i < ctx.n and ctx.time_left() > 0:
-        spec = gen_case(ctx.rng)
+        is_adv = i < n_adv
+        spec = gen_adv_case(advrng, ctx.shard + ctx.nshards * i) if is_adv else gen_case(ctx.rng)
         n_learn = len(spec["rounds"]) - 1
         signal.setitimer(signal.ITIMER_REAL, CASE_WALL_S)
         try:
@@ -487,7 +657,7 @@ def run_shard(ctx):
             signal.setitimer(signal.ITIMER_REAL, 0)
         ctx.case(case_key(spec), nontrivial=n_learn >= 3)
         ctx.count(f"histories.top={spec['learner']['k']}")
-        if i < 2: ctx.sample({"learner": spec["learner"], "meta": spec["meta"], "n_rounds": n_learn, "first_rounds": spec["rounds"][:2]})
+        if i < 2 or n_adv <= i < n_adv + 2: ctx.sample({"learner": spec["learner"], "meta": spec["meta"], "n_rounds": n_learn, "first_rounds": spec["rounds"][:2]})
         for sig, what in v:
             wit = dict(spec)
             k = wit.pop("_failed_at", None)
